@@ -367,6 +367,9 @@ EXCLUDED = {
     'np_conserved._eigvals_worker': {'*': 'worker of eigvalsh / eigvals: returns an ndarray (property C05)'},
     'np_conserved.speigs': {'W = res': 'return_eigenvectors=False: returns an ndarray only', 'return W': 'return_eigenvectors=False: returns an ndarray only'},
     'np_conserved.Array.test_sanity': {'return': 'early return at optimization level skip_arg_checks'},
+    'np_conserved.Array.__getitem__': {'return self.dtype.type(0)': 'element access: returns a number'},
+    'np_conserved.Array.get_block': {'return None': 'get_block(insert=False) of a block that is not stored returns None (no object; the tensor is checked to be unchanged)'},
+    'np_conserved._inner_worker': {"return res  # can't have blocks to be contracted.": 'full contraction of tensors whose total charges do not cancel: returns the number 0'},
     'np_conserved.inner': {'return np.sum([inner(w, v, axes=axes, do_conj=do_conj) for w, v in zip(a, b)])': 'lists of tensors: returns a number'},
     'np_conserved.Array.from_ndarray': {'option:raise_wrong_sector': 'raise_wrong_sector=True with entries in wrong sectors is the documented ValueError (no object); '
                                         'True without such entries is the default of every other call'},
